@@ -551,6 +551,9 @@ def check_code(co, nlines, sink, stats, nlines_inlined=None, depth=0, inlined=Fa
             op, arg = i.opcode, i.arg
             if i.opname.startswith("<"):
                 sink.add("invalid-opcode-or-argument", name, "opcode %d at %d is not defined by this interpreter" % (op, i.offset))
+            elif i.opname == "CACHE":
+                # dis hides the cache entries that follow an instruction: a CACHE it does show is executed as an instruction (ceval: unreachable)
+                sink.add("invalid-opcode-or-argument", name, "CACHE (opcode 0, arg %r) at %d stands where an instruction is executed" % (arg, i.offset))
             if arg is None:
                 continue
             if op in dis.hasconst and not (0 <= arg < len(co.co_consts)):
